@@ -208,7 +208,7 @@ class Ctx:
                 k = Ctx(cf, self.db).key(cf.nodes[st[0]]["sub"])
             except AnalysisBroken:
                 k = None
-            if k is not None and not key_contains(k, lambda y: y[0] in ("var", "field", "this", "global", "unknown", "ref", "lambda", "new", "throw", "mcall") or
+            if k is not None and not key_contains(k, lambda y: y[0] in ("var", "this", "global", "unknown", "ref", "lambda", "new", "throw") or
                                                    (y[0] == "un" and y[1] in ("++", "--", "++post", "--post")) or (y[0] == "op" and len(y) > 1 and y[1] in ASSIGN_OPS)):
                 res = ([("param", p_["d"], p_["n"]) for p_ in cf.params], k)
         cache[cf.mangled] = res
